@@ -363,7 +363,8 @@ theorem loadMain_reads (S : Spec) (fuel : Nat) (st0 : St) (f : File) {st' : St} 
     (hwf : WF (base S st0)) (h : loadMain S fuel st0 f = (st', r, j)) :
     ∃ new, st'.reads = new ++ st0.reads ∧ new.Nodup ∧ (∀ y ∈ new, y ∉ (base S st0).all.keys) ∧
       (∀ y ∈ new, Reach S (base S st0).all.keys f y) ∧
-      (r = .ok → ∀ y, Reach S (base S st0).all.keys f y → y ∈ new) := by
+      (r = .ok → ∀ y, Reach S (base S st0).all.keys f y → y ∈ new) ∧
+      (r = .ok → S.glob = true → ∀ y ∈ new, y ∈ st'.all.keys) := by
   have hB := hwf.baseOK
   rw [loadMain_unfold] at h
   split at h
@@ -376,9 +377,9 @@ theorem loadMain_reads (S : Spec) (fuel : Nat) (st0 : St) (f : File) {st' : St} 
       fun y hy => absurd hfk hy.start_not_cached
     split at h
     · cases h
-      exact ⟨[], by simp [removeNew_reads, base_reads], List.nodup_nil, by simp, by simp, fun _ => hno⟩
+      exact ⟨[], by simp [removeNew_reads, base_reads], List.nodup_nil, by simp, by simp, fun _ => hno, by simp⟩
     · cases h
-      exact ⟨[], by simp [base_reads], List.nodup_nil, by simp, by simp, fun _ => hno⟩
+      exact ⟨[], by simp [base_reads], List.nodup_nil, by simp, by simp, fun _ => hno, by simp⟩
   · rename_i hnc
     have hfk : f ∉ (base S st0).all.keys := by
       cases hg : S.glob with
@@ -392,7 +393,7 @@ theorem loadMain_reads (S : Spec) (fuel : Nat) (st0 : St) (f : File) {st' : St} 
     split at h
     · cases h
       exact ⟨[f], by simp [base_reads], by simp, by simpa using hfk, by simpa using Reach.refl hfk,
-        fun h => by cases h⟩
+        (fun h => by cases h), (fun h => by cases h)⟩
     · obtain ⟨hIa, hGa, hSa, hlt, hca, hina, hfa, hra⟩ := mainStart_facts S hwf f (fun _ => hfk)
       have hka := mainStart_keys S (base S st0) f hfk
       cases hl : loadCalls (internal S fuel) (base S st0).next (mainStart S (base S st0) f) (S.calls f) with
@@ -426,15 +427,25 @@ theorem loadMain_reads (S : Spec) (fuel : Nat) (st0 : St) (f : File) {st' : St} 
         cases r1 with
         | fuel =>
           simp only at h; cases h
-          exact ⟨new' ++ [f], heq, hnd, hfresh, hreach, fun h => by cases h⟩
+          exact ⟨new' ++ [f], heq, hnd, hfresh, hreach, (fun h => by cases h), (fun h => by cases h)⟩
         | fail k' =>
           simp only at h; cases h
-          exact ⟨new' ++ [f], by rw [cleanupA_reads]; exact heq, hnd, hfresh, hreach, fun h => by cases h⟩
+          exact ⟨new' ++ [f], by rw [cleanupA_reads]; exact heq, hnd, hfresh, hreach, (fun h => by cases h),
+            (fun h => by cases h)⟩
         | ok =>
           simp only at h
           have hrd := finishMain_reads S (base S st0) f st1
           rw [h] at hrd
-          refine ⟨new' ++ [f], by rw [hrd]; exact heq, hnd, hfresh, hreach, ?_⟩
+          refine ⟨new' ++ [f], by rw [hrd]; exact heq, hnd, hfresh, hreach, ?_, ?_⟩
+          rotate_left
+          · intro hr hg y hy
+            subst hr
+            rw [finishMain_ok_all S _ f st1 st' j h]
+            rcases List.mem_append.1 hy with h1 | h1
+            · exact hn.inAll rfl y h1
+            · have : y = f := by simpa using h1
+              rw [this]
+              exact Dict.mem_keys_of_mem ((hsafe.2 rfl).2.1.all _ (hina hg))
           intro hr y hy
           subst hr
           obtain ⟨_, _, hcalls⟩ := hsafe.2 rfl
